@@ -284,12 +284,59 @@ class SlotGraph:
 
 
 # ---------------------------------------------------------------- _retain, bounded sub-tree
+def call_graph(F):
+    g = getattr(F, "_callgraph", None)
+    if g is None:
+        g = {}
+        for p, b in F.bodies.items():
+            m = b.get("mir")
+            out = set()
+            if m:
+                for c in m["calls"]:
+                    t = c.get("resolved") or c.get("callee")
+                    if t and t in F.bodies:
+                        out.add(t)
+            for q in F.bodies:
+                if q.startswith(p + "::{closure"):
+                    out.add(q)
+            g[p] = out
+        F._callgraph = g
+    return g
+
+
+def reachable_from(F, path):
+    g = call_graph(F)
+    seen, todo = set(), [path]
+    while todo:
+        x = todo.pop()
+        if x in seen:
+            continue
+        seen.add(x)
+        todo.extend(g.get(x, ()))
+    return seen
+
+
+def retain_impl(F):
+    """short name of the recursive worker behind PrefixMap::retain (found by role, not by name)"""
+    r = F.short.get("PrefixMap::retain")
+    if r is None:
+        return None
+    g = call_graph(F)
+    for c in g.get(r, ()):
+        if c in g.get(c, ()) and not c.endswith("}"):
+            return F.short_of.get(c)
+    return "PrefixMap::_retain" if "PrefixMap::_retain" in F.short else None
+
+
 def retain_program(F, height=2, with_context=True, both_grp_sides=False):
     """PrefixMap::_retain started at an inner node `idx` whose parent and grand-parent exist and are
     linked as the function's contract says (child(par,par_right)=idx, child(grp,grp_right)=par), over
     every sub-tree below idx of at most `height` levels (deeper links are absent: bounded-exhaustive)."""
-    path = F.short["PrefixMap::_retain"]
+    path = F.short[retain_impl(F)]
     params = fn_params(F, path)
+    if [nm for nm, _, _ in params][:6] != ["self", "idx", "par", "par_right", "grp", "grp_right"]:
+        # the bounded program sets up (idx, par, par_right, grp, grp_right); another signature needs a new program
+        raise absint.Unrecognised("the recursive retain worker %s has parameters %s" % (path, [nm for nm, _, _ in params]))
 
     def prog(it):
         args = {}
@@ -337,7 +384,7 @@ def retain_program(F, height=2, with_context=True, both_grp_sides=False):
 def retain_paths(ctx, F):
     """bounded-exhaustive exploration of _retain (shared by C04, C10, C15, C16, C20)"""
     out = []
-    if "PrefixMap::_retain" not in F.short:
+    if retain_impl(F) is None:
         return out
     variants = [("ctx", dict(height=2, with_context=True, both_grp_sides=(ctx.tier == "thorough"))),
                 ("root", dict(height=2, with_context=False))]
@@ -346,7 +393,7 @@ def retain_paths(ctx, F):
         if key not in ctx._paths:
             ctx._paths[key] = absint.explore(F, None, None, {"loop_bound": 2, "inline_depth": 14},
                                              program=retain_program(F, **kw), max_paths=100000)
-        out.append(("PrefixMap::_retain[%s]" % tag, ctx._paths[key]))
+        out.append(("%s[%s]" % (retain_impl(F), tag), ctx._paths[key]))
     return out
 
 
